@@ -132,7 +132,7 @@ func main() {
 	runner.Main(&runner.Harness{
 		ID:    "C06",
 		Level: "model_checking",
-		Rule: "every stream-oriented matcher configuration (tls, http, ssh, xmpp, postgres, proxy_protocol, socks4, socks5, regexp, rdp, dns/TCP, openvpn/TCP, winbox; default + filtered) x every message of its corpus (test vectors, hand-written messages, protocol generators) with trailing data {none, 00, LF, the message again} and single-position substitutions (messages <=64 bytes; all in thorough) x EVERY prefix length; each prefix is loaded by the real prefetch and judged twice by the real Match under freeze/unfreeze; states = distinct (configuration, prefix) pairs",
+		Rule:  "every stream-oriented matcher configuration (tls, http, ssh, xmpp, postgres, proxy_protocol, socks4, socks5, regexp, rdp, dns/TCP, openvpn/TCP, winbox; default + filtered) x every message of its corpus (test vectors, hand-written messages, protocol generators) with trailing data {none, 00, LF, the message again} and single-position substitutions (messages <=64 bytes; all in thorough) x EVERY prefix length; each prefix is loaded by the real prefetch and judged twice by the real Match under freeze/unfreeze; states = distinct (configuration, prefix) pairs",
 		Assumptions: []string{
 			"an error verdict counts as a rejection (the router aborts the connection)",
 			"yes on a prefix followed by no on a longer prefix is allowed by the property text and not checked",
